@@ -90,7 +90,9 @@ def _gfc_cases():
                     if ix == "xy" and (rnd is not None or mode is None):
                         continue
                     out.append(Case(f"D={D},mode={mode},round={rnd},indexing={ix}",
-                                    lambda e, D=D, mode=mode, rnd=rnd, ix=ix: ((_state(e, D)[0],), {"scaling_compensation_mode": mode, "round": rnd, "indexing": ix})))
+                                    lambda e, D=D, mode=mode, rnd=rnd, ix=ix: ((_state(e, D)[0],), {"scaling_compensation_mode": mode, "round": rnd, "indexing": ix},
+                                                                                     # decimal rounding is not modelled (the spec is the unrounded value): a native comparison may differ by half a unit of the last kept digit
+                                                                                     {"native_tol": 0.75 * 10.0 ** (-rnd)} if rnd is not None else {})))
     return out
 
 
